@@ -91,7 +91,7 @@ def verify_update(world, units, spec: M.Spec, concrete_cls=None, engine_kw=None,
 
     def thunk(eng_):
         I = Interp(eng_, units, specs=all_specs(world), world=world)
-        world.list_hooks = {("ServerBase", "jobs"): M._jobs_hook}
+        world.list_hooks = {("ServerBase", "jobs"): M._jobs_hook, ("UsagePattern", "devices"): M._devices_hook}
         world.attr_invariants = M.ATTR_INV
         world.loop_specs = M.LOOP_SPECS
         world.specs = {k: v for k, v in M.WORLD_SPECS.items() if k != (k_, spec.fn)}
@@ -99,6 +99,9 @@ def verify_update(world, units, spec: M.Spec, concrete_cls=None, engine_kw=None,
             o = world.new_obj(cname, "self")
             o.variant = variant
             g = M.G(I, o)
+            extra0 = spec.spec.extra_args(I, world) if hasattr(spec.spec, "extra_args") else []
+            for pn, pv in zip([a.arg for a in ex.node.args.args[1:]], extra0):
+                eng_.run.cache["arg:" + pn] = pv
             I.phase = "spec"
             try:
                 want = ("ret", spec.spec(I, g))
@@ -106,9 +109,10 @@ def verify_update(world, units, spec: M.Spec, concrete_cls=None, engine_kw=None,
                 want = ("raise", e.exc)
             I.phase = "body"
             loops = spec.loops(I, g) if callable(spec.loops) else spec.loops
+            extra = extra0
             try:
                 if not loops: loops = M.LOOP_SPECS.get(qual)
-                rv_ = I.exec_function(ex.node, [o], loop_specs=loops, qualname=qual)
+                rv_ = I.exec_function(ex.node, [o] + list(extra), loop_specs=loops, qualname=qual)
                 got = ("ret", rv_)
             except SymRaise as e:
                 got = ("raise", e.exc)
